@@ -31,7 +31,8 @@ rule = ("framings: the four COBS variants everywhere, zero terminated command te
         "writes, EAGAIN, write queue with offset), 'st eof' closes the receiver's connection after the delivery); stream 6 = message removal 'eq del k' (mpt_queue_push(qu, k, NULL)) on "
         "wrapped sender rings between pushes, terminations, partial flushes and 'eq align', COBS variants and raw.  A second "
         "driver part (harness/drvxx_cqueue.cpp) runs the queue scripts through the C++ wrappers encode_queue::push/trim and "
-        "decode_queue::advance/current_message of mpt++/queue.cpp.  Non-trivial = a script in "
+        "decode_queue::advance/current_message of mpt++/queue.cpp, and the plain glue scripts with the C++ input object "
+        "io::stream::input (mpt++/io_stream.cpp, io_stream_input.cpp) as receiver.  Non-trivial = a script in "
         "which at least one frame was split across deliveries (a 'dq wire' ended inside a frame) AND the stored data "
         "of a ring wrapped (off+len>max in the code's output), counted per distinct script")
 assumptions = [
@@ -331,6 +332,18 @@ def scripts(tier, seed, scale=1):
                     lines += ["st deliver %d" % seg, "st poll", "st dispatch"]
         lines += ["st deliver 1000000", "st poll", "st dispatch", "st sync"]
         out.append(("glue-grow%s:%s:%d" % (mode.replace(" ", "-"), codec, j), lines))
+    # a flush in the middle of a message, then a frame that ends exactly at the end of the write buffer: the encoder goes
+    # on at the start of the storage, the finished data wraps and is written in two parts (lengths around the exact fit)
+    for codec in CODECS[:2] if tier == "quick" else CODECS:
+        for n in range(250, 259):
+            a = [1 + (i * 7) % 250 for i in range(n)]
+            a[10] = 0
+            lines = ["st new " + codec, "st push " + gen.hexs(a[:11]), "st flush", "st push " + gen.hexs(a[11:]), "st term",
+                     "st push 070809", "st term", "st push 4142", "st term", "st flush", "st push 1020003040", "st term", "st flush"]
+            for _ in range(6):
+                lines += ["st deliver 50", "st poll", "st dispatch"]
+            lines += ["st deliver 1000000", "st poll", "st dispatch", "st sync"]
+            out.append(("glue-fit:%s:%d" % (codec, n), lines))
     # the write queue wraps around after a partial write and is flushed in two parts
     for codec in CODECS[:2] if tier == "quick" else CODECS:
         lines = ["st new " + codec, "st push " + gen.hexs([7, 0, 9] * 2000), "st flush1", "st push " + gen.hexs([1, 0] * 1500), "st term",
@@ -361,7 +374,11 @@ class _XX:
 
     @staticmethod
     def corpus(chk):
-        return [(n, _XX.convert(s)) for n, s in gen.corpus(id) if s and s[0].startswith("eq new")]
+        return [(n, _XX.convert(s)) for n, s in gen.corpus(id) if s and (s[0].startswith("eq new") or _XX.plain_glue(s))]
+
+    @staticmethod
+    def plain_glue(lines):
+        return bool(lines) and lines[0].startswith("st new") and len(lines[0].split()) == 3
 
     @staticmethod
     def convert(lines):
@@ -377,7 +394,9 @@ class _XX:
             elif w[0] == "dq" and w[1] in ("peek", "shift", "feed", "get"):
                 continue
             elif w[0] == "st":
-                continue
+                # the C++ input object io::stream::input as receiver of the glue scripts
+                if w[1] in ("new", "push", "term", "flush", "deliver", "poll", "dispatch", "sync"):
+                    out.append(ln)
             else:
                 out.append(ln)
         return out
@@ -386,6 +405,9 @@ class _XX:
     def scripts(tier, seed, scale=1):
         out = []
         for k, (name, lines) in enumerate(scripts(tier, seed, scale)):
+            if _XX.plain_glue(lines):
+                out.append(("xx:" + name, _XX.convert(lines)))
+                continue
             if not lines or not lines[0].startswith("eq new") or " raw " in lines[0]:
                 continue
             # every third script of the exhaustive stream, every script of the other streams
